@@ -56,7 +56,9 @@ RECURSIVE Settle(_)
 Settle(s) == IF IntEn(s) THEN Settle(IntStep(s)) ELSE s
 
 (* what the harness can see through the exported API once everything is blocked *)
-Gate(s) == CASE s.mpc = "inStart" -> "start" [] s.mpc = "inRun" -> "run" [] s.mpc = "inStop" -> "stop" [] OTHER -> "none"
+\* (the running function of an idle / timer service is dskit's: the gate of a timer service is its iteration function)
+Gate(s) == CASE s.mpc = "inStart" -> "start" [] s.mpc = "inRun" /\ s.mode = "any" -> "run" [] s.mpc = "inStop" -> "stop"
+             [] s.mpc = "inRun" /\ s.tpc = "iter" -> "iter" [] OTHER -> "none"
 Obs(s) ==
   [ st   |-> s.state, fail |-> s.failure,
     ctx  |-> IF s.cancelFn = "nil" THEN "nil" ELSE IF s.ctxDone THEN "done" ELSE "live",
@@ -71,9 +73,10 @@ EnvEn(s, a) ==
   CASE a[1] = "StartAsync"   -> StartAsyncEn(s)
     [] a[1] = "ParentCancel" -> ParentCancelEn(s)
     [] a[1] = "StartRet"     -> StartFnReturnEn(s, a[2])
-    [] a[1] = "RunRet"       -> RunFnReturnEn(s, a[2]) /\ (s.mode = "any" \/ a[2] = "erun")
+    [] a[1] = "RunRet"       -> RunFnReturnEn(s, a[2]) /\ s.mode = "any"
     [] a[1] = "StopRet"      -> StopFnReturnEn(s, a[2])
-    [] a[1] = "Tick"         -> TickEn(s)
+    [] a[1] = "Tick"         -> TickEn(s) /\ ~s.ctxDone     \* the harness lets a tick happen only while nothing else is ready
+    [] a[1] = "IterRet"      -> IterReturnEn(s, a[2])
     [] a[1] = "StopCall"     -> StopCheckEn(s, a[2])
     [] a[1] = "StopRelease"  -> StopSwitchEn(s, a[2])
     [] a[1] = "AddListener"  -> AddListenerEn(s, a[2])
@@ -89,6 +92,7 @@ EnvOp(s, a) ==
     [] a[1] = "RunRet"       -> RunFnReturn(s, a[2])
     [] a[1] = "StopRet"      -> StopFnReturn(s, a[2])
     [] a[1] = "Tick"         -> Tick(s)
+    [] a[1] = "IterRet"      -> IterReturn(s, a[2])
     [] a[1] = "StopCall"     -> StopCheck(s, a[2])
     [] a[1] = "StopRelease"  -> StopSwitch(s, a[2])
     [] a[1] = "AddListener"  -> AddListener(s, a[2])
@@ -107,7 +111,7 @@ GStep(a) == /\ EnvEn(sv, a)
 
 GNext == \/ GStep(<<"StartAsync", 0>>) \/ GStep(<<"ParentCancel", 0>>) \/ GStep(<<"Tick", 0>>)
          \/ \E e \in {"none", "estart"} : GStep(<<"StartRet", e>>)
-         \/ \E e \in {"none", "erun"} : GStep(<<"RunRet", e>>)
+         \/ \E e \in {"none", "erun"} : GStep(<<"RunRet", e>>) \/ GStep(<<"IterRet", e>>)
          \/ \E e \in {"none", "estop"} : GStep(<<"StopRet", e>>)
          \/ \E c \in Callers : GStep(<<"StopCall", c>>) \/ GStep(<<"StopRelease", c>>)
          \/ \E l \in Lis : GStep(<<"AddListener", l>>) \/ GStep(<<"Remove", l>>) \/ GStep(<<"CbReturn", l>>)
